@@ -14,15 +14,25 @@ import tempfile
 from . import harness
 
 
-def run_atheris(acc, mod, kind, decode, seed, runs, max_len=48, layer="atheris", seeds=()):
-    deps = os.path.join(harness.VERIF, ".deps")
-    if deps not in sys.path:
-        sys.path.append(deps)
+def run_atheris(acc, mod, kind, decode, seed, runs, max_len=48, layer="atheris", seeds=(), ascii_only=True):
+    for deps in (os.path.join(harness.VERIF, ".deps"), "/verif/.deps"):
+        if os.path.isdir(deps) and deps not in sys.path:
+            sys.path.append(deps)
     try:
         import atheris
     except Exception:  # noqa: BLE001
         acc.discarded["atheris-unavailable"] += 1
         return
+
+    state = {"n": 0, "fails": 0, "path": None}
+
+    def dump():
+        import pickle
+
+        tmp = state["path"] + ".tmp"
+        with open(tmp, "wb") as f:
+            pickle.dump(acc.dump(), f)
+        os.replace(tmp, state["path"])
 
     def one(data: bytes):
         try:
@@ -30,48 +40,40 @@ def run_atheris(acc, mod, kind, decode, seed, runs, max_len=48, layer="atheris",
         except Exception:  # noqa: BLE001
             return
         harness.process(mod, acc, kind, case, layer, isolate=True)
+        state["n"] += 1
+        nf = sum(acc.fail_counts.values())
+        # libFuzzer leaves through exit() (no atexit, no exception): persist progress as we go
+        if state["n"] % 2000 == 0 or state["n"] >= runs - 2 or nf != state["fails"]:
+            state["fails"] = nf
+            dump()
 
-    with tempfile.TemporaryDirectory(prefix="vpfuzz") as corpus:
-        for i, s in enumerate(seeds):
+    with tempfile.TemporaryDirectory(prefix="vpfuzz") as corpus, tempfile.TemporaryDirectory(prefix="vpfuzzout") as outdir:
+        state["path"] = os.path.join(outdir, "acc.pickle")
+        for i, s_ in enumerate(seeds):
             with open(os.path.join(corpus, f"seed{i}"), "wb") as f:
-                f.write(s if isinstance(s, bytes) else s.encode())
-        argv = [sys.argv[0], f"-runs={runs}", f"-seed={seed % (2**31 - 1) + 1}", f"-max_len={max_len}", "-only_ascii=1", "-verbosity=0", "-print_final_stats=0", corpus]
-        atheris.instrument_all() if False else None
-        with atheris.instrument_imports(include=["dep_logic"]):
-            pass
-        atheris.Setup(argv, one)
-        # libFuzzer calls exit() at the end of the run; fork so that the worker survives
-        rd, wr = os.pipe()
+                f.write(s_ if isinstance(s_, bytes) else s_.encode())
+        argv = [sys.argv[0], f"-runs={runs}", f"-seed={seed % (2**31 - 1) + 1}", f"-max_len={max_len}", f"-only_ascii={1 if ascii_only else 0}", "-verbosity=0", "-print_final_stats=0", corpus]
         pid = os.fork()
         if pid == 0:
-            os.close(rd)
-            import atexit
-            import pickle
-
-            def flush():
-                with os.fdopen(wr, "wb") as f:
-                    pickle.dump(acc.dump(), f)
-
             try:
                 devnull = os.open(os.devnull, os.O_WRONLY)
                 os.dup2(devnull, 2)
+                os.dup2(devnull, 1)
+                with atheris.instrument_imports(include=["dep_logic"]):
+                    pass
+                atheris.Setup(argv, one)
                 atheris.Fuzz()
-            except SystemExit:
-                pass
             finally:
-                flush()
                 os._exit(0)
-        os.close(wr)
+        os.waitpid(pid, 0)
         import pickle
 
-        with os.fdopen(rd, "rb") as f:
-            data = f.read()
-        os.waitpid(pid, 0)
-        if data:
-            child = pickle.loads(data)
+        if os.path.exists(state["path"]):
+            with open(state["path"], "rb") as f:
+                child = pickle.load(f)
             fresh = harness.Acc()
             fresh.merge(child)
-            # child started from a copy of acc: replace rather than add
+            # the child started from a copy of acc: replace rather than add
             acc.__dict__.update(fresh.__dict__)
         else:
             acc.discarded["atheris-run-lost"] += 1
